@@ -29,6 +29,11 @@ def _ctx_attr_source(e: ast.AST) -> str | None:
         return e.args[1].value
     if isinstance(e, ast.Call) and call_name(e) == "get_metadata":
         return "metadata"
+    if isinstance(e, ast.BoolOp) and isinstance(e.op, ast.Or):
+        srcs = [_ctx_attr_source(v) for v in e.values]
+        srcs = [x for x in srcs if x]
+        if srcs:
+            return "metadata" if "metadata" in srcs else srcs[0]
     return None
 
 
